@@ -56,7 +56,11 @@ let eval (input : Sx.t) (obs : Sx.t) : Sx.t list * bool * bool * string =
       let pre_outs = List.map (fun o -> List.map ev_of (Sx.list o)) (Sx.args (Sx.field "pre" obs)) in
       let sx_outs tag l = Sx.L (Sx.A tag :: List.map (fun es -> Sx.L (List.map sx_ev es)) l) in
       let m = RWStack.stack_run head1 head pre ops in
-      let sx_m = [sx_outs "outs" m; sx_outs "pre" (run head1 pre)] in
+      (* the lower writer's own answers after all that: by stack_spy it has received exactly the lowered calls *)
+      let low_m = (match List.rev (run head1 (pre @ RWStack.lower_ops head1 head init ops @ [OStatus; OWritten; OSize])) with
+        | [ASize z] :: [AWritten b] :: [AStatus c] :: _ -> Sx.L [Sx.A "low"; sx_int (int_of_z c); sx_bool b; sx_int (int_of_n z)]
+        | _ -> failwith "low") in
+      let sx_m = [sx_outs "outs" m; sx_outs "pre" (run head1 pre); low_m] in
       (* the property, read off the observation: over the whole life of the stack the spy gets at most one status
          line and gets it before any body byte or flush; W2 answers like a fresh writer of its own *)
       let all = List.concat pre_outs @ List.concat outs in
@@ -67,7 +71,16 @@ let eval (input : Sx.t) (obs : Sx.t) : Sx.t list * bool * bool * string =
         | (UWrite _ | UFlush) :: t -> seen && first seen t
         | _ :: t -> first seen t in
       let ans l = List.filter (function AStatus _ | ASize _ | AWritten _ -> true | _ -> false) (List.concat l) in
-      let spec = nwh <= 1 && first false all && ans outs = ans (run head (List.map (RWStack.view head1) ops)) in
+      (* ... and the lower writer reports the first status the spy got and the bytes the spy accepted *)
+      let low_spec = (match Sx.field_opt "low" obs with
+        | Some l -> (match Sx.args l with
+            | [c; b; z] ->
+                let first_code = (match List.find_opt (function UWriteHeader _ -> true | _ -> false) all with Some (UWriteHeader c) -> int_of_z c | _ -> 0) in
+                let bytes = List.fold_left (fun a e -> match e with UWrite (_, n) -> a + int_of_n n | _ -> a) 0 all in
+                Sx.int_of c = first_code && bool_of b = (first_code <> 0) && Sx.int_of z = bytes
+            | _ -> false)
+        | None -> false) in
+      let spec = nwh <= 1 && first false all && ans outs = ans (run head (List.map (RWStack.view head1) ops)) && low_spec in
       let written1 = List.exists (function OWriteHeader _ | OWrite _ | OFlush _ -> true | _ -> false) pre in
       (sx_m, spec, written1 || List.exists (function OBefore _ -> true | _ -> false) ops,
        "stacked/" ^ (if written1 then "lower-written" else "lower-fresh") ^ (if head then "/HEAD" else ""))
